@@ -1269,7 +1269,7 @@ def analyse_ambiguity(pattern, flags, bound=6):
     return res
 
 
-def included(f_pattern, f_flags, r_pattern, r_flags, limit=200000):
+def included(f_pattern, f_flags, r_pattern, r_flags, limit=200000, ascii_only=False):
     """
     Language inclusion L(F) <= L(R) under whole-string semantics, by on-the-fly
     subset construction of R's position automaton along F's.  Zero-width
@@ -1310,6 +1310,8 @@ def included(f_pattern, f_flags, r_pattern, r_flags, limit=200000):
             groups = {}
             for ci in AF.pos_chars[qf]:
                 ch = AF.alphabet[ci]
+                if ascii_only and ord(ch) > 126:
+                    continue
                 nxt = frozenset(AR.step(SR, ch))
                 groups.setdefault(nxt, ch)
             for nxt, ch in groups.items():
